@@ -1,8 +1,8 @@
 (* C14 — property theorems.  Only statements, each closed by [exact], each followed by
    Print Assumptions. *)
 From Coq Require Import ZArith QArith List Bool.
-From Centro Require Import Model.Circle Model.Feret Model.HullFill Spec.MecSpec Spec.FeretSpec Spec.FeretLower Spec.FillSpec
-  Proofs.MecProofs Proofs.CircleProofs Proofs.FeretProofs Proofs.FeretLowerProofs Proofs.SweepProofs Proofs.FillProofs Proofs.FillEdgeProofs Proofs.FillModelProofs.
+From Centro Require Import Base.VecC13 Model.Circle Model.CircleVec Model.Feret Model.HullFill Spec.MecSpec Spec.ChrystalHyp Spec.FeretSpec Spec.FeretLower Spec.FillSpec
+  Proofs.MecProofs Proofs.CircleProofs Proofs.ChrystalFull Proofs.CircleVecProofs Proofs.CircleVecStep Proofs.FeretProofs Proofs.FeretLowerProofs Proofs.SweepProofs Proofs.FillProofs Proofs.FillEdgeProofs Proofs.FillModelProofs.
 
 (* Full.  Soundness of the certificate checker that is run on the exact circle reconstructed from
    the implementation's output: the circle contains every pixel centre of S and no circle
@@ -34,17 +34,65 @@ Theorem C14_chrystal_lower_bound : forall h ny nx d rn,
 Proof. exact chrystal_lower_bound. Qed.
 Print Assumptions C14_chrystal_lower_bound.
 
-(* Partial: "the model's circle is the minimum enclosing circle of the hull points" is proved under
-   the premise that the circle encloses them.  Missing: that Chrystal's iteration as written always
-   terminates (within the model's fuel) in a circle that encloses every hull point — the progress
-   argument of the algorithm.  On every run the premise is checked on the implementation's own
-   output by mec_ok, for the object's full pixel set. *)
-Theorem C14_chrystal_reaches_certificate_partial : forall h ny nx d rn,
-  chrystal h = CCircle ny nx d rn ->
-  Encloses h (inject_Z ny / inject_Z d) (inject_Z nx / inject_Z d) (inject_Z rn / inject_Z (d * d)) ->
-  MEC h (inject_Z ny / inject_Z d) (inject_Z nx / inject_Z d) (inject_Z rn / inject_Z (d * d)).
-Proof. exact chrystal_mec. Qed.
-Print Assumptions C14_chrystal_reaches_certificate_partial.
+(* Full.  Chrystal's iteration as written (start on hull points 0 and 1, vertex of smallest angle,
+   cases 1 / 1a / 2, replacement of the obtuse end point) terminates within the model's iteration
+   bound and returns THE minimum enclosing circle, for every point list in general position (points
+   distinct, no three collinear: strict hull vertices) whose first two points span a supporting line
+   (adjacent hull vertices) - in any orientation and from any starting vertex.  Invariant: the circle
+   through S0, S1 and the smallest-angle vertex encloses all points (pencil-of-circles form of the
+   inscribed-angle theorem, over Z); measure: the chord S0 S1 strictly lengthens at every
+   replacement.  The boolean hypothesis is evaluated on every run's hull lists. *)
+Theorem C14_chrystal_reaches_certificate : forall h,
+  chrystal_hyp_ok h = true ->
+  exists ny nx d rn,
+    chrystal h = CCircle ny nx d rn /\
+    MEC h (inject_Z ny / inject_Z d) (inject_Z nx / inject_Z d) (inject_Z rn / inject_Z (d * d)).
+Proof. exact chrystal_reaches_certificate. Qed.
+Print Assumptions C14_chrystal_reaches_certificate.
+
+(* ---- the vectorised bookkeeping of minimum_enclosing_circle (Model/CircleVec.v: global hull rows,
+   point_index = offsets, anti_indexes_per_point = anti_index gather, within_label_indexes, global
+   s0_idx / s1_idx), over the C13 idiom lemmas offsets_correct / anti_index_correct ---- *)
+
+(* Full.  The rows addressed through point_index[k] .. + point_count[k] are exactly object k's block
+   of the hull array, for any numbering and order of `indexes`. *)
+Theorem C14_mec_vec_own_block : forall indexes blocks k l b,
+  length indexes = length blocks -> nth_error indexes k = Some l -> nth_error blocks k = Some b ->
+  exists off, nth_error (offsets (map zlenv blocks)) k = Some off /\
+              segment (hull_rows indexes blocks) off (zlenv b) = map (pair l) b.
+Proof. exact own_block. Qed.
+Print Assumptions C14_mec_vec_own_block.
+
+(* Full.  anti_indexes[label] of a row of object k is k (duplicate-free non-negative index list). *)
+Theorem C14_mec_vec_own_anti : forall indexes k l,
+  NoDup indexes -> (forall j, In j indexes -> (0 <= j)%Z) -> nth_error indexes k = Some l ->
+  nthz (anti_index indexes) l 0%Z = Z.of_nat k.
+Proof. exact own_anti. Qed.
+Print Assumptions C14_mec_vec_own_anti.
+
+(* Full.  What an iteration decides for object k (finish with which circle / which global row
+   becomes the new S0 or S1) reads only k's own entries of keep_me, s0_idx, s1_idx and
+   within_label_indexes at rows whose anti-index is k: two global states that agree there decide
+   the same, whatever the other objects' data are. *)
+Theorem C14_mec_vec_reads_local : forall rows app k st st',
+  agree app k st st' -> decide rows app st k = decide rows app st' k.
+Proof. exact decide_local. Qed.
+Print Assumptions C14_mec_vec_reads_local.
+
+(* Full (per-object independence of a whole pass of the vectorised loop).  Two global states with
+   arrays of equal sizes that agree on object k's own entries (keep_me, s0_idx, s1_idx, result and
+   within_label_indexes at k's rows) still agree on them after one pass over all n objects, whatever
+   the other objects' entries are - provided every object's s0_idx / s1_idx point at its own rows
+   (true initially by C14_mec_vec_own_block / own_anti and preserved, since a new S0 / S1 is one of
+   the object's own candidate rows).  Composition of read-locality, the write frame
+   (CircleVecProofs.others_frame) and congruence of an object's own write over the fold of all writes. *)
+Theorem C14_mec_vec_independent : forall rows app n st st' k,
+  (0 <= k < Z.of_nat n)%Z -> samelen st st' -> agree app k st st' ->
+  (forall k', (0 <= k' < Z.of_nat n)%Z -> owner app st k') ->
+  (forall k', (0 <= k' < Z.of_nat n)%Z -> owner app st' k') ->
+  agree app k (vstep rows app n st) (vstep rows app n st').
+Proof. exact vstep_independent. Qed.
+Print Assumptions C14_mec_vec_independent.
 
 (* Full.  The brute-force maximum Feret diameter (squared) that the implementation's value is
    compared with is the largest squared distance between two pixels of the object. *)
@@ -84,12 +132,33 @@ Theorem C14_feret_min_lower_bound : forall S l wn wd,
 Proof. exact feret_lower_sound. Qed.
 Print Assumptions C14_feret_min_lower_bound.
 
+(* Full.  The antipodal sweep as written never exhausts the model's iteration bound, for any vertex
+   list (each pass advances the antipode or the vertex; 2n passes at most). *)
+Theorem C14_sweep_terminates : forall h, sweep h <> None.
+Proof. exact sweep_terminates. Qed.
+Print Assumptions C14_sweep_terminates.
+
+(* Full.  The advance test of the sweep: the two distance2_to_line values share their denominator,
+   so their exact rational comparison is the integer comparison the model performs.  (The code
+   compares the correctly rounded doubles of these rationals; rounding is monotone, so the two
+   decisions can only differ when dc > dn round to the same double, which needs squared cross
+   products above 2^53, i.e. diameters above 9 741 - modelled, not verified.) *)
+Theorem C14_sweep_advance_test_exact : forall n1 n2 den : Z, (0 < den)%Z ->
+  ((inject_Z n1 / inject_Z den <= inject_Z n2 / inject_Z den)%Q <-> (n1 <= n2)%Z).
+Proof. exact advance_test_exact. Qed.
+Print Assumptions C14_sweep_advance_test_exact.
+
 (* Partial (calipers = brute force).  Proved about the executable model of the antipodal sweep, for
-   every vertex list: the sweep only records pairs of valid hull indices, so the maximum it
-   reports never exceeds the largest pairwise distance.  Missing: the converse (a farthest pair is
-   always among the recorded antipodal pairs) and the equality of the minimum construction with the
-   narrowest edge strip.  The model carries the brute-force values next to the sweep's, so any
-   disagreement on a generated hull is a concrete refutation; none occurred. *)
+   every vertex list: it terminates (above), it only records pairs of valid, distinct hull indices,
+   and so the maximum it reports never exceeds the largest pairwise distance.  Missing, by name:
+   diameter_is_antipodal (a farthest pair of a convex polygon admits parallel supporting lines),
+   sweep_antipodal_complete (for a strictly convex cycle in either orientation the recorded pairs
+   contain every antipodal vertex pair), and width_at_antipodal_edge (the narrowest edge strip is
+   found at a vertex having both end points of that edge as antipodes) - the rotating-calipers
+   invariant.  Instead, on every run the model's maximum and minimum are compared with brute force
+   on the same vertex list (any disagreement is reported as a refutation; none in 30 000+ calls),
+   and the implementation's values are certified against the object's full pixel set by the
+   verified checkers max_d2 / feret_min_ok / feret_lower_ok. *)
 Theorem C14_calipers_eq_bruteforce_partial : forall h mx mn,
   sweep h = Some (mx, mn) -> (mx <= max_d2 h)%Z.
 Proof. exact sweep_max_sound. Qed.
